@@ -189,6 +189,8 @@ struct Acc {
     size_mismatch: u64,
     samples: Vec<Value>,
     per_kind: BTreeMap<&'static str, [u64; 2]>,
+    /// rule -> number of cases in which it is the only broken rule
+    alone: BTreeMap<&'static str, u64>,
 }
 
 /// how a case was derived; rendered only for samples and violations
@@ -230,6 +232,9 @@ fn eval(g: Gen, a: &mut Acc) {
         }
     } else {
         k[1] += 1;
+        if j.refv.broken.len() == 1 {
+            *a.alone.entry(j.refv.broken[0]).or_default() += 1;
+        }
         *a.outcomes.entry(format!("reference invalid, first broken rule: {}", j.refv.broken[0])).or_default() += 1;
     }
     match &j.obs {
@@ -269,6 +274,7 @@ struct Totals {
     size_mismatch: u64,
     per_kind: BTreeMap<&'static str, [u64; 2]>,
     samples: Vec<Value>,
+    alone: BTreeMap<&'static str, u64>,
 }
 
 fn sweep(ctx: &Ctx, n: u64, tot: &mut Totals, gen: impl Fn(u64) -> Option<Gen> + Sync) {
@@ -314,6 +320,9 @@ fn sweep(ctx: &Ctx, n: u64, tot: &mut Totals, gen: impl Fn(u64) -> Option<Gen> +
                 let e = tot.per_kind.entry(k).or_default();
                 e[0] += v[0];
                 e[1] += v[1];
+            }
+            for (k, v) in a.alone {
+                *tot.alone.entry(k).or_default() += v;
             }
             if tot.samples.len() < 8 {
                 tot.samples.extend(a.samples.into_iter().take(1));
@@ -533,6 +542,7 @@ fn explore(ctx: &Ctx) {
         size_mismatch: 0,
         per_kind: BTreeMap::new(),
         samples: vec![],
+        alone: BTreeMap::new(),
     };
     let mut phases = vec![];
     let mut note = |ctx: &Ctx, name: String, before: u64| {
@@ -623,6 +633,15 @@ fn explore(ctx: &Ctx) {
                 }
             }
         }
+    }
+    // every rule of the reference must have been exercised in isolation (a case in which
+    // it is the only broken rule), otherwise a subject that ignores the rule could pass
+    let never_alone: Vec<&str> =
+        ALL_RULES.iter().copied().filter(|r| !tot.alone.contains_key(r) && !NEVER_ALONE.contains(r)).collect();
+    ctx.set("cases_where_rule_is_the_only_broken_rule", json!(tot.alone));
+    ctx.set("rules_that_cannot_be_isolated", json!(NEVER_ALONE));
+    if !never_alone.is_empty() && ctx.violation_count() == 0 {
+        panic!("rules never exercised in isolation (hole in the space): {never_alone:?}");
     }
     if !ineffective.is_empty() && ctx.violation_count() == 0 {
         panic!("deviations that never had their intended effect (hole in the alphabet): {ineffective:?}");
